@@ -26,7 +26,7 @@ PROTO_NAMES = ('v1', 'v2', 'loose', 'auto')
 UNIVERSE = ('BaseException', 'Exception', 'TypeError', 'ValueError', 'UnicodeDecodeError',
             'JSONDecodeError', 'RuntimeError', 'RecursionError', 'LookupError', 'KeyError',
             'IndexError', 'AttributeError', 'AssertionError', 'MemoryError', 'OverflowError',
-            'StopIteration', 'CodeMessageError', 'RPCError', 'ProtocolError')
+            'StopIteration', 'InvalidStateError', 'CodeMessageError', 'RPCError', 'ProtocolError')
 
 
 def protos(mod):
@@ -35,7 +35,7 @@ def protos(mod):
 
 def nearest_exc_name(e):
     """class name of `e`, or of its nearest base class inside the modelled universe
-    (asyncio.InvalidStateError -> Exception)"""
+    (e.g. asyncio.CancelledError -> BaseException)"""
     for k in type(e).__mro__:
         if k.__name__ in UNIVERSE:
             return k.__name__
